@@ -651,6 +651,9 @@ def case_from_line(line, flavour="plain", tags=()):
         else:
             orc = ply_oracle(g, am)
         c = Case(line, model=" ".join(btok), expect=expect_rt, oracle=orc, flavour=flavour, tags=tags)
+    elif op in ("obj_dech", "ply_dech"):
+        # ONE decoder object reads another file first; the second read is held to the model's reading of that file alone
+        c = Case(line, model=f"{op[:-1]} {tok[1]} {tok[3]}", expect=expect_dec, flavour=flavour, tags=tags)
     elif op in ("stl_dec", "ply_dec", "obj_dec"):
         c = Case(line, expect=expect_dec, flavour=flavour, tags=tags)
     elif op == "obj_nums":
@@ -871,6 +874,25 @@ def generate(rng, tier):
         am = rng.choice([1, 1, 0]) if g.is_mesh else rng.choice([0, 0, 1])
         cases.append(case_from_line(f"obj_dec {am} " + obj_text(rng, g).hex(), "plain", ("obj_dec", "handwritten")))
         cases.append(case_from_line(f"ply_dec {am} " + ply_bytes(rng, g).hex(), "plain", ("ply_dec", "handwritten")))
+    for i in range(300 if thorough else 80):
+        ga = refill(rng, rand_geom(rng, "quick"))
+        gb = None
+        # ObjDecoder / PlyDecoder keep the attribute ids of the previous file: on the unchanged tree an object can be
+        # reused only for files with the same kinds of attributes (that is what its counter reset is for), so the
+        # history uses two files of the same shape — the property itself says nothing about reused reader objects
+        kinds = lambda g: (g.is_mesh, tuple(sorted((a.att_type, a.ncomp, a.dtype) for a in g.atts)))
+        for _ in range(40):
+            cand = refill(rng, rand_geom(rng, "quick"))
+            if kinds(cand) == kinds(ga):
+                gb = cand
+                break
+        if gb is None or ga.num_points == 0 or gb.num_points == 0:
+            continue
+        am = 1 if gb.is_mesh else 0
+        if i % 2 == 0:
+            cases.append(case_from_line(f"obj_dech {am} {obj_text(rng, ga).hex()} {obj_text(rng, gb).hex()}", "asan" if i % 4 == 0 else "plain", ("obj_dech", "decoder-history")))
+        else:
+            cases.append(case_from_line(f"ply_dech {am} {ply_bytes(rng, ga).hex()} {ply_bytes(rng, gb).hex()}", "asan" if i % 4 == 1 else "plain", ("ply_dech", "decoder-history")))
     stl = bytes(80) + struct.pack("<I", 1) + struct.pack("<12f", 0, 0, 1, 0, 0, 0, 1, 0, 0, 0, 1, 0) + b"\x00\x00"
     for f in (stl, stl + b"trailing", b"solid " + stl[6:], b"binary header, not ascii".ljust(80, b".") + stl[80:]):
         cases.append(case_from_line("stl_dec " + f.hex(), "plain", ("stl_dec", "handwritten")))
